@@ -158,3 +158,8 @@ def device_counts_as_on_unless_its_state_item_reads_off(shape, pos: int, block: 
     else:
         ensures("on-iff-the-state-is-not-OFF", dev.is_on == (state != "OFF"))
     cover("reached-end", True)
+
+
+# which item says whether device X runs: the device table, literally (shared with C12)
+from contracts import c12_inventory
+harness(prop="C17", target="geckolib.const:GeckoConstants", name="each_device_reads_its_own_state_item")(c12_inventory.device_table_is_the_published_one)
